@@ -101,6 +101,10 @@ def gen_case(rng, ctx):
             st = dict(op="metadata", b=bid, stale=rng.random() < 0.5)
         else:
             st = dict(op="listing", b=bid)
+        if backend != "memory" and rng.random() < 0.05:
+            # the process ends (everything flushed) and another one opens the same file: buckets it finds there are buckets
+            # like any other - listed, described, updated, deleted - although this Datastore object never handed out a handle
+            st["reopen_before"] = True
         steps.append(st)
         if rng.random() < 0.12:     # the delete / re-create cycle around an id that holds events
             uid += 1
@@ -211,6 +215,15 @@ def run_case(case, ctx):
             bid = pool[s["b"]]
             op = s["op"]
             where = f"{backend} step#{k} {op}({bid!r})"
+            if s.get("reopen_before") and backend != "memory":
+                for b_ in list(model):
+                    ds[b_].get(1)                      # (reads: nothing is left pending when the connection goes away)
+                st.close(remove=False)
+                st2 = Store(backend, ctx.tmp, path=st.path)
+                st.ds, st.storage = st2.ds, st2.storage
+                ds = st.ds
+                handles.clear()
+                ctx.count("stores_reopened_mid_history")
             live = bid in model
             state = "live" if live else "missing"
             before = None
